@@ -83,8 +83,8 @@ _NUM = re.compile(r"[-+]?(?:\d+\.\d*|\.\d+|\d+)(?:[eE][-+]?\d+)?")
 
 
 def _np_norm(s: str) -> str:
-    s = re.sub(r"np\.float64\(([^)]*)\)", r"\1", s)
-    return s.replace("np.True_", "True").replace("np.False_", "False").replace("float64", "float")
+    s = re.sub(r"np\.(?:float64|float32|int64)\(([^)]*)\)", r"\1", s)
+    return s.replace("np.True_", "True").replace("np.False_", "False").replace("float64", "float").replace("float32", "float").replace("int64", "int")
 
 
 def _str_close(a: str, b: str) -> bool:
